@@ -414,7 +414,14 @@ class Engine:
     def st_Raise(self, run, st, fr):
         if st.exc is None:
             raise Undecided("bare raise")
-        v = self.ev(run, st.exc, fr)
+        try:
+            v = self.ev(run, st.exc, fr)
+        except Undecided:
+            # the message of an exception is irrelevant: `raise Cls(<unmodelled message expression>)` raises Cls
+            if isinstance(st.exc, ast.Call):
+                v = self.ev(run, st.exc.func, fr)
+            else:
+                raise
         if isinstance(v, SExcClass):
             v = SExc(v.name, ())
         if not isinstance(v, SExc):
@@ -1095,7 +1102,8 @@ class Engine:
         r = self.comprehension(run, node, fr, list)
         if isinstance(r, list):
             return set(r)
-        return r
+        from .models import SSymSet
+        return SSymSet(run, r)
 
     def ex_DictComp(self, run, node, fr):
         if len(node.generators) != 1:
